@@ -13,7 +13,9 @@ EXPLANATION = ('Each solver is called through its public __call__ with N symboli
                'the ExactSolution constructor is replaced by a recorder.  On every feasible path: the returned fields have '
                'exactly N entries, the first field(s) are the positions that were passed (same terms, same order), the field names '
                'are the same on all paths and begin with the coordinate names, the caller\'s array is not modified, and z3 decides '
-               'that record i does not depend on the other points (out_i with point j replaced by a fresh point is equal).')
+               'that record i does not depend on the other points (out_i with point j replaced by a fresh point is equal).  '
+               'Origin-guard variant: a point exactly 0.0 in the request (masked in-place assignments run on boolean masks).  Constructor '
+               'clause: a symbolic choice among candidate keyword names / omitted parameters, each must raise ValueError.')
 BOUNDS = ['N in {1, 2, 3}; points symbolic and unordered; geometry enumerated']
 OUTSIDE = ['list/tuple/array equivalence and dtype handling (numpy.asarray), record-array construction (numpy.rec.fromarrays), CSV '
            'round trip (csv module, float repr): C code, not encodable', 'unknown keyword names outside the candidate set (all attribute '
